@@ -473,9 +473,9 @@ class PointJacobi(object):
     def _add(self, X1, Y1, Z1, X2, Y2, Z2, p):
         """add two points, select fastest method."""
         if not Y1 or not Z1:
-            return X2, Y2, Z2
+            return X2, Y2 % p, Z2
         if not Y2 or not Z2:
-            return X1, Y1, Z1
+            return X1, Y1 % p, Z1
         if Z1 == Z2:
             if Z1 == 1:
                 return self._add_with_z_1(X1, Y1, X2, Y2, p)
